@@ -14,6 +14,7 @@ pub type R<'a> = EndianSlice<'a, RunTimeEndian>;
 // ---- custom storages: limits (rows, rules) ----
 macro_rules! storage {
     ($name:ident, $rows:expr, $rules:expr) => {
+        #[derive(Clone, Copy, Debug, PartialEq, Eq)]
         pub struct $name;
         impl<T: ReaderOffset> UnwindContextStorage<T> for $name {
             type Rules = [(Register, RegisterRule<T>); $rules];
@@ -25,6 +26,7 @@ storage!(S1x1, 1, 1);
 storage!(S2x3, 2, 3);
 storage!(S4x192, 4, 192);
 storage!(S8x256, 8, 256);
+#[derive(Clone, Copy, Debug, PartialEq, Eq)]
 pub struct SVec;
 impl<T: ReaderOffset> UnwindContextStorage<T> for SVec {
     type Rules = Vec<(Register, RegisterRule<T>)>;
@@ -105,7 +107,7 @@ pub fn outcome(res: Result<(), gimli::Error>, rows: &[String]) -> String {
 }
 
 /// fde.rows(..) then next_row until None / error / `limit` rows.
-pub fn rows_on<'a, S: UnwindContextStorage<usize>>(
+pub fn rows_on<'a, S: UnwindContextStorage<usize> + PartialEq>(
     df: &DebugFrame<R<'a>>,
     bases: &BaseAddresses,
     fde: &FrameDescriptionEntry<R<'a>>,
@@ -114,6 +116,8 @@ pub fn rows_on<'a, S: UnwindContextStorage<usize>>(
     probes: &[u16],
 ) -> String {
     let mut out: Vec<String> = Vec::new();
+    // clones of the rows, for the PartialEq oracle (order-insensitive comparison of the rule sets)
+    let mut kept: Vec<UnwindTableRow<usize, S>> = Vec::new();
     let mut table = match fde.rows(df, bases, ctx) {
         Ok(t) => t,
         Err(e) => return err(&e),
@@ -141,7 +145,23 @@ pub fn rows_on<'a, S: UnwindContextStorage<usize>>(
                 }
                 prev_end = Some(row.end_address());
                 match fmt_row(row, probes) {
-                    Ok(s) => out.push(s),
+                    Ok(s) => {
+                        // oracle: `==` on rows (documented as independent of the rule order) agrees with
+                        // equality of the canonical text, against every earlier row of this table
+                        let c = row.clone();
+                        if c != *row {
+                            return "row-eq-mismatch clone".into();
+                        }
+                        if kept.len() < 24 {
+                            for (k, old) in kept.iter().enumerate() {
+                                if (*old == c) != (out[k] == s) {
+                                    return format!("row-eq-mismatch {} vs {}", k, out.len());
+                                }
+                            }
+                            kept.push(c);
+                        }
+                        out.push(s)
+                    }
                     Err(m) => return m,
                 }
             }
